@@ -57,6 +57,9 @@ def run(tier):
     judge.model_check("MCSimpleDB.tla", "MC_SimpleDB_conc_big.cfg" if thorough else "MC_SimpleDB_conc.cfg", o,
                       "exhaustive: 2 clients x all interleavings at lock/channel grain", timeout=2400)
 
+    if thorough:
+        judge.model_check("RefineKV.tla", "MC_RefineKV.cfg", o, "refinement: every step of the concurrent model is a step of the atomic map (KVStore) or leaves it unchanged",
+                          timeout=2400)
     nhist = 64 if thorough else 16
     batches = []
     for i in range(nhist):
